@@ -255,4 +255,21 @@ PROPS = {
         "assumptions": ["handing one row's live Value cell to another row's SetValue / ImportAtKey shares that cell by construction of the API (excluded, DESIGN.md §10)",
                         "sharing below the top level (a nested row reached through two parents) is outside the statement"],
     },
+    "C14": {
+        "kind": "c14,std",
+        "module": "Props.C14",
+        "namespace": "Jl.C14",
+        "extra_theorem_files": [("Proofs.Time", "Jl.Time"), ("Proofs.Civil", "Jl.Time")],
+        "rule": ("under process zones UTC, +05:30, -03:00, Europe/Paris and America/New_York (time.Local switched in-process, tz database "
+                 "embedded): ToTime(src), ToString of the result, ToTimestamp(src) and ToTimestamp(ToTime(src)) for date-time strings with "
+                 "explicit offsets (hand-picked boundaries: years 0001 and 9999, offsets +-23:59, leap days, DST gaps and overlaps of both "
+                 "zones, fractions with '.' and ',', 1-digit hour, missing zone, +24:00; random instants over years 0001-9999 x offsets "
+                 "-23:59..+23:59 at 1 s resolution, with and without sub-second digits), for integer timestamps (0, +-1, +-1 s around EVERY "
+                 "DST transition of both zones in sampled years 1970-2037, 253402214400, random 0..253402214400) carried by int64, int32 "
+                 "and decimal text, and for []byte carriers. Judged by c14Violation with the ported parser as the reading of texts; the "
+                 "std sub-run validates the time port against package time. distinct = distinct (zone, source)"),
+        "trusted_base": [KERNEL, EXTRACT, CORR, "lean/Model/Time.lean: port of package time for the two layouts (validated against package time incl. the general parser's leniencies)",
+                         "the tz database: parameter Ext.zoneOffset (arbitrary function in the theorems)"],
+        "assumptions": ["offsets are whole minutes and |offset| < 24 h (true of the zones in scope after 1970); years 0..9999"],
+    },
 }
